@@ -133,7 +133,11 @@ def run_fit(spec):
                "nondiag" if nondiag else "diag", "trigonal:%s/diag:%s" % (spec.get("is_trigonal", False), spec["is_diagonal"]), "sym" if spec["is_symmetry"] else "nosym", "pmat:" + pm, "forces_from:" + spec.get("forces_from", "dataset"),
                "regenerated" if spec.get("regenerate") else "single_generate",
                "ndisp:%d" % min(len(forces), 12)]
-    if err > 1e-8:
+    tol = 1e-8
+    if spec.get("forces_from") == "supercells":
+        # displacements re-derived from printed-precision-free but finite-precision positions: |r| eps / distance, amplified by the fit
+        tol = max(tol, 1e-10 * float(np.abs(scell.cell).max()) / float(spec["distance"]))
+    if err > tol:
         return Out(ok=False, classes=classes, info={"err": err},
                    msg="force constants differ from the harmonic model: rel err %.3e (natom %d, %d displacements, nops %d)"
                    % (err, n, len(forces), nops))
